@@ -10,3 +10,7 @@ func VerifStressHashSeed() uint64 { return hashSeed }
 // test-only switch), so the C10 harness calls Recalc itself.  Unexported names touched:
 // StressRelief.disableStressLevelReport.
 func (s *StressRelief) VerifDetermNoLoop() { s.disableStressLevelReport = true }
+
+// VerifDetermReloadPending reports whether a reload signal posted by sendReloadSignal is still
+// waiting for monitor() (C10 wiring leg).  Unexported names touched: InMemCollector.reload.
+func VerifDetermReloadPending(i *InMemCollector) int { return len(i.reload) }
